@@ -20,7 +20,7 @@ RULE = ("harness-generated template datasets (rank 1-3, extents 1-6, coordinate 
         "grid_mapping) x variables of f8/f4/i8/i4/i2 with and without _FillValue and random masks x every DataType x MissingValue "
         "combination; write cases with 1-4 results (float64/float32/int64/int32, nomask / all-false / random masks) written together; "
         "distinct by (case kind, rank, stored type, DataType, MissingValue class, has-fill, n results, mask classes)")
-REQUIRED_COUNTERS = ["tool_runs_through_a_linked_command_file", "large_grids_written", "reads_compared", "type_check_cases", "writes_read_back", "template_copies_compared", "union_mask_checks", "writes_over_an_older_dataset", "other_type_name_spellings", "written_results_made_by_commands"]
+REQUIRED_COUNTERS = ["plain_rereads_of_the_same_variable", "tool_runs_through_a_linked_command_file", "large_grids_written", "reads_compared", "type_check_cases", "writes_read_back", "template_copies_compared", "union_mask_checks", "writes_over_an_older_dataset", "other_type_name_spellings", "written_results_made_by_commands"]
 ASSUMPTIONS = ["don't-care: real data equal to the fill value, result names clashing with dimension names, compression settings, plain ndarray results",
                "Fuzzy: data within [-1,1] must come back unchanged, data beyond +-1.5 must be rejected, whatever is returned lies in [-1,1]; the width "
                "of the tolerance band in between is not documented and not judged", "the parameter is called MissingValue in the code (MissingVal in the docs)"]
@@ -315,7 +315,22 @@ def run_read(ctx, case):
             if not out.ok and out.err == "ParameterNotValid":
                 return
             prog.commands.pop("R", None)
+    plain1 = None
+    if case["rseed"] % 3 == 0:
+        # the same variable is read plainly (no type name, no missing value) before and after the read under test: both plain
+        # reads give the stored values, and the earlier one is not changed by what was read later
+        plain1 = arr.invoke(arr.new_program(arr.NC_LIBS, working_dir=d), "EEMSRead", "P1", {"InFileName": path, "InFieldName": "var"})
+        plain1_digest = arr.digest(plain1.value) if plain1.ok and isinstance(plain1.value, numpy.ndarray) else None
     out = arr.invoke(prog, "EEMSRead", "R", args)
+    if plain1 is not None and plain1.ok and plain1_digest is not None:
+        ctx.count("plain_rereads_of_the_same_variable")
+        plain2 = arr.invoke(arr.new_program(arr.NC_LIBS, working_dir=d), "EEMSRead", "P2", {"InFileName": path, "InFieldName": "var"})
+        if arr.digest(plain1.value) != plain1_digest:
+            ctx.fail("read:earlier-read-of-the-same-variable-changed-by-a-later-read", {"later_read": {k_: v_ for k_, v_ in args.items() if k_ != "InFileName"}, "stored": stored})
+            return
+        if not plain2.ok or arr.digest(plain2.value) != plain1_digest:
+            ctx.fail("read:plain-read-differs-after-another-read-of-the-same-variable", {"other_read": {k_: v_ for k_, v_ in args.items() if k_ != "InFileName"}, "stored": stored, "error": repr(plain2.exc)[:200] if not plain2.ok else None})
+            return
     valid = [v for v, m in zip(vals, fillmask) if not m]
     has_neg = any(v < 0 for v in valid)
     key = "read:%s:%s" % (dt or "default", "mv-" + mvclass if mvclass != "absent" else "no-mv")
